@@ -27,6 +27,8 @@ def make_desc(job):
     d = {"kind": "invalid", "case": case, "seed": job["seed"], "optimizer": opt, "task": task, "config": cfg,
          "mode": mode, "workers": r.choice([1, 2, 4]) if mode != "serial" else None,
          "sched": scenario.gen_sched(r) if mode != "serial" else {"policy": "fifo"}}
+    d["task_valid"] = copy.deepcopy(d["task"])
+    d["followup"] = r.choice(["none", "none", "mode", "both"])
     if case == "weights_fewer":
         d["task"]["weights"] = d["task"]["weights"][:-1]
     elif case == "weights_more":
@@ -103,6 +105,26 @@ def run(desc):
                                           f"invalid call was rejected")
         elif case in ("no_configuration", "unknown_mode", "workers_zero", "workers_negative") and r.obj_calls > 0:
             stats["probe_objective_called_before_rejection"] = 1
+        # a rejected call must not poison the instance: the next *valid* call on it behaves like the same call on
+        # a fresh instance (first clause of C06, for an instance whose history contains a rejected call)
+        if r.exc is not None and desc.get("task_valid") is not None:
+            if case == "no_configuration":
+                o.set_config_parameters(copy.deepcopy(desc["config"]))
+            fk = {"none": {}, "mode": {"mode": desc.get("mode")},
+                  "both": {"mode": desc.get("mode"), "workers": desc.get("workers")}}[desc.get("followup", "none")]
+            s.set_ambient("followup")
+            r2 = s.call(o, tasks.build_task(desc["task_valid"]), mode=fk.get("mode"), workers=fk.get("workers"),
+                        entropy_label="followup")
+            fresh = cls(engine_g.make_config(desc["optimizer"], desc["config"]))
+            s.set_ambient("followup")
+            # a fresh instance defaults to serial mode with 4 workers; the used one keeps the last valid mode
+            r3 = s.call(fresh, tasks.build_task(desc["task_valid"]), mode=fk.get("mode"), workers=fk.get("workers"),
+                        entropy_label="followup")
+            stats["followups"] = 1
+            if r3.exc is None and r2.exc is not None and not r2.injected:
+                add("valid_call_fails_after_rejected_call",
+                    f"{desc['optimizer']}: after the rejected call ({case}) a valid optimize({fk}) on the same "
+                    f"instance raised {r2.exc_type}: {r2.exc_msg[:120]}; the same call on a fresh instance returns a result")
     return out, stats
 
 
@@ -113,8 +135,9 @@ def run_job(job):
     return {"i": job["i"], "seed": job["seed"], "cell": [job["cell"][0], "invalid:" + desc["case"], desc.get("mode")],
             "violations": vs, "desc": desc if vs else None, "digest": st["digest"], "sched_digest": "",
             "nevents": st["nevents"], "steps": 0, "obj_calls": st.get("obj_calls", 0), "obj_ctx": {}, "switches": 0,
-            "fired": {}, "counters": {"invalid_calls": 1, **({"objective_called_before_rejection": 1}
-                                                             if st.get("probe_objective_called_before_rejection") else {})},
+            "fired": {}, "counters": {"invalid_calls": 1, "valid_followup_calls": st.get("followups", 0),
+                                      **({"objective_called_before_rejection": 1}
+                                         if st.get("probe_objective_called_before_rejection") else {})},
             "fault_kinds": ["invalid_call"], "exc": None, "injected": False, "family": "invalid", "step_limit": False,
             "deadlock": bool(st.get("deadlock")), "wall": time.time() - t0, "thread_crashes": 0, "completion_perms": [],
             "pool_sections": 0, "greedy_sections": 0, "ok_result": False, "invalid_case": desc["case"]}
